@@ -258,6 +258,8 @@ class Interp:
             return self.ptr_add(b, T.const_int(64, o['off']))
         if k == 'zero':
             return T.mk('zeroagg', o['size'], (), ty_norm(o['t']))
+        if k in ('md', 'asm'):
+            return T.mk('meta', k, (), None)
         raise Unsupported('constant kind %s' % k)
 
     def ptr_add(self, p, delta):
